@@ -71,6 +71,31 @@ def run(chk):
                 mlines.append(f"logs write {b}")
                 impl.append(lst); meta.append((h, "write", maxsize, maxcount, b))
             shutil.rmtree(os.path.join(sd, "w", d), ignore_errors=True)
+        # the archive step cannot be done (the live file may only be appended to: `chattr +a`, as an administrator or a log shipper
+        # may have set it): the file does not grow past its limit for that
+        d = "appendonly"
+        maxsize = 1000
+        eng.ctl(f"new {d} {maxsize} 3")
+        live = os.path.join(sd, "w", d, "ProxyAgent.log")
+        eng.ctl(f"write {d} 600")
+        locked = os.path.exists(live) and subprocess.run(["chattr", "+a", live], stdout=subprocess.DEVNULL, stderr=subprocess.DEVNULL).returncode == 0
+        if locked:
+            try:
+                sizes = []
+                for w_ in range(30):
+                    cur, arch = parse_listing(eng.ctl(f"write {d} 300"))
+                    sizes.append(cur)
+                chk.case(nontrivial_key=("append-only-live-file", tuple(sizes[-3:])))
+                chk.count("writes_with_archiving_impossible", 30)
+                if sizes[-1] is not None and sizes[-1] >= maxsize + 300:
+                    chk.violation("log file grew beyond its size limit by more than one write",
+                                  {"situation": "the live log file is append-only (chattr +a), so it cannot be renamed away", "maxsize": maxsize,
+                                   "sizes_after_each_300_byte_write": sizes}, expected=f"< {maxsize}+300", observed=sizes[-1])
+            finally:
+                subprocess.run(["chattr", "-a", live], stdout=subprocess.DEVNULL, stderr=subprocess.DEVNULL)
+        else:
+            chk.notes.append("append-only stage skipped: chattr +a not possible on the scratch filesystem")
+        shutil.rmtree(os.path.join(sd, "w", d), ignore_errors=True)
         model = vlib.run_driver(mlines)
         prev = None
         for (h, op, maxsize, maxcount, b), io, mo in zip(meta, impl, model):
